@@ -251,16 +251,43 @@ class Runner:
             return 0, '', ''
         return sb.x(*(self.cfg_args(cfg) + xvc_args(c)))
 
+    @staticmethod
+    def restamp(sb, state):
+        """The model gives every user write and every independent copy made by xvc a fresh modification stamp.  Kernel
+        timestamps only advance with the timer tick (files created within ~4 ms share an mtime), so the harness assigns
+        explicit, strictly increasing mtimes to every independent regular workspace file it has not stamped yet
+        (hard links share the inode - and the mtime - of their cache object and are left alone)."""
+        for dp, dn, fn in os.walk(sb.root):
+            dn[:] = [d for d in dn if d not in ('.xvc', '.git')]
+            for f in fn:
+                if f in ('.gitignore', '.xvcignore'):
+                    continue
+                p = os.path.join(dp, f)
+                try:
+                    st = os.lstat(p)
+                except OSError:
+                    continue
+                if not stat.S_ISREG(st.st_mode) or st.st_nlink != 1:
+                    continue
+                if st.st_mtime_ns in state['mine']:
+                    continue
+                state['k'] += 1
+                t = (1_600_000_000 + state['k']) * 1_000_000_000
+                os.utime(p, ns=(t, t))
+                state['mine'].add(t)
+
     def run_history(self, name, cfg, history, hooks=None, keep=False):
         """returns list of steps: dict(cmd, rc, err, pre: Obs, post: Obs, abs: str)"""
         sb = self.new_sandbox(name)
         table = Table()
         steps = []
+        stamps = {'k': 0, 'mine': set()}
         pre = Obs(sb)
         for i, c in enumerate(history):
             if c['op'] == 'write':
                 table.add(c['bytes'])
             rc, out, err = self.exec_cmd(sb, cfg, c)
+            self.restamp(sb, stamps)
             post = Obs(sb)
             st = {'i': i, 'cmd': c, 'rc': rc, 'out': out[-400:], 'err': err[-600:], 'pre': pre, 'post': post, 'abs': abstraction(post, table)}
             steps.append(st)
